@@ -347,6 +347,10 @@ def run(ck, F):
                     if tys in INT_TYPES:
                         ck.ok("R1", key, ev.site, f"hole of integer type `{tys}` in {ctx} context", fn=fnshort)
                         continue
+                    ntt = og.numeric_text_type(nf, CE)
+                    if ntt is not None:
+                        ck.ok("R1", key, ev.site, f"hole is the decimal text of a parsed `{ntt}` in {ctx} context", fn=fnshort)
+                        continue
                     chains = chains_of(nf, root_ty)
                     if ctx in ("string", "raw_string", "char"):
                         escaped = tr == "debug" or all(any(c in ("escape_default", "escape_debug") for c in ch) for ch in chains)
